@@ -22,6 +22,9 @@ Oracle after each injected failure (all observed from outside the code under tes
     were persistent when the transaction began (including those deleted by the tail) are
     persistent; every attribute then read from them (ordinary attribute access) equals
     the committed row -- judged with the C30 relation against the observer connection;
+  * half of the histories flush one or two primary-key switches successfully *before* the
+    failing flush: after rollback the object has its old key, ``Session.get(newkey)`` finds
+    nothing and every identity-map entry holds an object under that object's own key;
   * for faults inside a SAVEPOINT, alternate points recover the documented way instead:
     the savepoint is rolled back (must not raise), the in-transaction rows must equal the
     rows at savepoint creation, objects created inside it are transient, the enclosing
@@ -61,7 +64,8 @@ META = {
     "require": ["histories", "faults_injected", "faults_at_statements", "faults_at_hooks", "faults_inside_savepoint",
                 "observer_dumps_compared", "rollbacks_checked", "added_objects_checked_transient",
                 "deleted_objects_checked_persistent_again", "column_values_compared", "reruns_compared",
-                "commit_before_rollback_attempts", "savepoint_recoveries"],
+                "commit_before_rollback_attempts", "savepoint_recoveries", "pk_switches_checked_after_rollback",
+                "identity_map_entries_audited"],
     "assumptions": ["the observer connection (separate sqlite3 connection) sees exactly the committed state"],
 }
 
@@ -112,8 +116,15 @@ def generate(ctx, R, zoo, tpl, rng, fams, nested):
             rig.session.autoflush = False
             g2 = R.Gen(rig, rng, fams, TAIL_W)
             g2.seq = g1.seq + 100
-            n2 = rng.randint(4, 14)
-            cut = rng.randint(0, n2 - 1) if nested else None
+            # primary-key switches that are flushed successfully *before* the flush that
+            # will fail (op 'pk' flushes at once); they head the tail and are redone by the rerun
+            if rng.random() < 0.5:
+                for _ in range(rng.randint(1, 2)):
+                    op = g2.g_pk()
+                    if op is not None and it.apply(op):
+                        tail.append(op)
+            n2 = len(tail) + rng.randint(4, 14)
+            cut = rng.randint(len(tail), n2 - 1) if nested else None
             for j in range(n2 * 2):
                 if len(tail) >= n2:
                     break
@@ -224,6 +235,7 @@ def run_point(ctx, R, zoo, tpl, kd, prefix, tail, D_ok, point, kind, commit_firs
             pre_kind[id(o)] = R.state_kind(st, rig.session)
         rig.session.autoflush = False
         sp_frame = {}
+        pre_key = {id(o): sa.inspect(o).key for o in rig.objs}
 
         def on_nest():
             sp_frame["dump"] = rig.dump(rig.read_txn)
@@ -235,6 +247,10 @@ def run_point(ctx, R, zoo, tpl, kd, prefix, tail, D_ok, point, kind, commit_firs
             ctx.count("replays_diverged")
             return
         tail_deleted = [o for o in rig.objs[:base] if o in rig.session.deleted]
+        switched = [(o, pre_key[id(o)], sa.inspect(o).key) for o in rig.objs[:base]
+                    if pre_key.get(id(o)) is not None and sa.inspect(o).key is not None and sa.inspect(o).key != pre_key[id(o)]]
+        if switched:
+            ctx.count("points_with_flushed_pk_switch")
         # ---- inject
         mark = rig.spy.mark()
         state = {"n": 0, "hit": False, "executed_before": 0}
@@ -375,6 +391,21 @@ def run_point(ctx, R, zoo, tpl, kd, prefix, tail, D_ok, point, kind, commit_firs
                 if k != "persistent":
                     vio("deleted-object-not-persistent-after-rollback" if any(o is x for x in tail_deleted) else "persistent-object-lost-after-rollback",
                         f"{type(o).__name__} slot {slot} was persistent when the transaction began, is {k} after rollback", {"slot": slot})
+        # ---- (3b) primary keys switched (and flushed) earlier in the rolled-back transaction:
+        # the object has its old key again, nothing answers to the new key any more, and the
+        # identity map holds every object under its own key only
+        for o, oldkey, newkey in switched:
+            ctx.count("pk_switches_checked_after_rollback")
+            if sa.inspect(o).key != oldkey:
+                vio("pk-switch-not-undone-by-rollback", f"{type(o).__name__} has key {sa.inspect(o).key[1]} after rollback, had {oldkey[1]} when the transaction began")
+                continue
+            got = rig.session.get(newkey[0], newkey[1])
+            if got is not None:
+                vio("get-answers-for-rolled-back-key", f"Session.get({newkey[0].__name__}, {newkey[1]}) returns {'the switched object itself' if got is o else 'an object'} after rollback; that row does not exist")
+        for key, obj in list(rig.session.identity_map.items()):
+            ctx.count("identity_map_entries_audited")
+            if sa.inspect(obj).key != key:
+                vio("identity-map-entry-under-foreign-key", f"identity_map[{key[1]}] is a {type(obj).__name__} whose own key is {sa.inspect(obj).key[1]}")
         # ---- (4) attributes reload the committed values
         try:
             touch_all(R, rig)
